@@ -655,13 +655,14 @@ func c09hv(m any, err error) (any, error) { return m, err }
 // ---- strings for the authentication headers ----
 
 var (
-	c09realms = [4]string{"", "r", "IP Camera(21388)",
+	// (a backslash inside a quoted field is written and read back verbatim by these codecs)
+	c09realms = [4]string{"", `cams\floor2`, "IP Camera(21388)",
 		"A realm with spaces, commas; semicolons = equal signs: and colons " + strings.Repeat("long ", 30)}
 	c09nonces = [4]string{"0", "n", "8b84a3b789283a8bea8da7fa7d41f08b", strings.Repeat("0123456789abcdef", 8)}
 	c09opaque = [4]string{"", "o", "5ccc069c403ebaf9f0171e9517f40e41", "opaque, with=separators; inside"}
 	c09uris   = [4]string{"*", "/", "rtsp://myhost:8554/mypath?key=val&a=b,c", "rtsp://[::1]:8554/" + strings.Repeat("seg/", 40)}
 	c09resps  = [4]string{"0", "f", "6629fae49393a05397450978507c4ef1", strings.Repeat("ab", 32)}
-	c09users  = [4]string{"u", "user", "John Doe", "user@example.com"}
+	c09users  = [4]string{"u", `CORP\operator`, "John Doe", "user@example.com"}
 	// passwords: empty, plain, with a space, with colons (RFC 7617: only the user name cannot hold ':')
 	c09passes   = [4]string{"", "p", "pass word", "pa:ss:word"}
 	c09passWhys = [4]string{"basic_empty_pass", "basic_plain_pass", "basic_space_pass", "basic_colon_pass"}
